@@ -50,10 +50,14 @@ def check(run):
                     if is_json_number(lit):
                         oracle_fail.append((cfg, l, "a number", o))
                     continue
-                if not is_json_number(lit):
-                    continue     # lenient spellings: model only
+                # leading zeros do not change the value (the property names them): judged as the same literal without them
+                import re as _re
+                mz = _re.match(r"^(-?)0+(\d.*)$", lit)
+                olit = (mz.group(1) + mz.group(2)) if mz else lit
+                if not is_json_number(olit):
+                    continue     # other lenient spellings: model only
                 d = ("i" + o[1:]) if o[0] in "ui" else o
-                m = gen_json.check_number(lit, d)
+                m = gen_json.check_number(olit, d)
                 if m:
                     oracle_fail.append((cfg, l, m, o))
     cfg = "10001"
